@@ -316,6 +316,11 @@ def tlsCmd : List String → String
     let cs : Tls.Cells := { listener := 0, content := fun _ => 1, nextCell := 1 }
     let r := Tls.cloneCell tlsFacts cs cs.listener
     if Tls.presented (Tls.reload r.1 r.2 2) == 2 then "new" else "old"
+  | ["rotate", "samekey"] =>
+    -- a renewed certificate for the same private key is still a new certificate: reload is unconditional
+    let cs : Tls.Cells := { listener := 0, content := fun _ => 1, nextCell := 1 }
+    let r := Tls.cloneCell tlsFacts cs cs.listener
+    if Tls.presented (Tls.reload r.1 r.2 2) == 2 then "new" else "old"
   | ["rotate", "updated"] =>
     -- GetExportOptions (clone), UpdateExportOptions (stores a clone of that), GetExportOptions again (clone)
     let cs : Tls.Cells := { listener := 0, content := fun _ => 1, nextCell := 1 }
